@@ -2967,7 +2967,8 @@ pub fn matrix_column_elements(&mut self, column_elements: &[&MatrixColumn]) -> S
         }
         let mut src2 = "".to_string();
         let sz = match &**literal {
-          Literal::Empty(_) => "".to_string(),
+          // the parser's placeholder for "no size written"; an explicit `_` is kept
+          Literal::Empty(tkn) if tkn.chars.is_empty() => "".to_string(),
           _ => format!(":{}", self.literal(literal)),
         };
         format!("|{}|{}", src, sz)
